@@ -4,6 +4,7 @@
 #![allow(dead_code, unused_variables, unused_must_use, clippy::all)]
 pub mod algorithms;
 pub mod deadline_support;
+pub mod iter;
 pub mod text;
 pub mod types;
 pub mod udiff;
